@@ -116,6 +116,13 @@ func probeFlight(p flightArg) (string, string) {
 	if g, err := roman.DefaultParser(ta, 0); err != nil || uint64(g) != p.A {
 		return "text_overwritten_by_later_call", fmt.Sprintf("the numeral kept from MarshalText(%d) parses to %d, %v after later calls", p.A, uint64(g), err)
 	}
+	// the caller may write into a returned slice: later calls must not be affected by that
+	defer mc.Scribble(ta, tb, fa, fb)()
+	ta2, _ := roman.Number(p.A).MarshalText()
+	fb2, _ := roman.DefaultFormatter(nil, roman.Number(p.B), roman.Format(p.F))
+	if string(ta2) != wa || string(fb2) != oracle.RomanText(p.B, p.F) || roman.Number(p.A).String() != wa {
+		return "text_affected_by_caller_writing_into_earlier_result", fmt.Sprintf("after the caller overwrote earlier results: MarshalText(%d) = %q (want %q), DefaultFormatter(%d) = %q", p.A, ta2, wa, p.B, fb2)
+	}
 	return "", ""
 }
 
